@@ -5,10 +5,12 @@ Open Scope list_scope.
 
 (* ---- networkx: geff.write(G, fresh store) ; geff.read(store, backend="networkx") ; adapter view ----
    For every directed / undirected graph of any size with distinct node ids in [0, 2^64), edges between its nodes, no edge twice
-   (as unordered pairs when undirected), non-empty property names, and attributes present on ANY subset of the nodes / edges such
-   that each property column (val_col) -- its values together with the fill value used where an element lacks it -- consists of
-   Python scalars numpy types alike (all bool, all int64-range ints, all ints of [2^63,2^64) on every element, all float, all str),
-   or of nested lists of one shape, or of nested lists of one rank and different shapes (ragged), with leaves typed alike:
+   (as unordered pairs when undirected), usable property names (Names.name_ok: one non-empty path segment without "/" or "\", not "."
+   / "..", not a reserved member name of zarr), no string value ending in NUL (strs_ok), and attributes present on ANY subset of the
+   nodes / edges such that each property column (val_col) -- its values together with the fill value used where an element lacks it --
+   consists of Python scalars numpy types alike (all bool, all int64-range ints, all ints of [2^63,2^64) on every element, all float,
+   all str), or of nested lists of one shape, or of nested lists of one rank and different shapes (ragged), with leaves typed alike,
+   or of nested lists of one shape without any leaf (the same domain read declaratively: C03_decl_dom below):
    the write succeeds, and the graph read back has the same directedness, the same node ids and the same edges in the same order,
    and on every node / edge EXACTLY the properties it had -- a property it lacked is absent (no fill value) -- with the same value,
    the same kind (bool / int / float / str) and, for arrays, the same shape and element kind (cv_of_py). *)
@@ -44,7 +46,9 @@ Theorem C03_rx_roundtrip_steps : forall cvf d g idmap g' mdtok axtok, rx_target 
 Proof. exact rx_roundtrip. Qed.
 Print Assumptions C03_rx_roundtrip_steps.
 
-(* node_id_dict / node_indices(): ids are translated, payloads and edge data are untouched *)
+(* node_id_dict / node_indices(): ids are translated, payloads and edge data are untouched.
+   DEFINITIONAL: an unfolding of Backends.rx_translate (two mapM over the node / edge lists); kept as the readable description of
+   rx_target used in the statements of C03_rx_roundtrip, not counted as covering a clause. *)
 Theorem C03_rx_ids : forall idmap g g', rx_translate idmap g = Ok g' ->
   map snd (d_nodes g') = map snd (d_nodes g) /\ map snd (d_edges g') = map snd (d_edges g) /\
   map (fun nd => Some (fst nd)) (d_nodes g') = map (fun nd => tr_id idmap (fst nd)) (d_nodes g) /\
@@ -66,7 +70,9 @@ Theorem C03_column_scalar : forall col d, col_dt col = Some d -> col <> [] ->
 Proof. exact scalar_column. Qed.
 Print Assumptions C03_column_scalar.
 
-(* the fill value has the Python type of the first present value: a bool property stays bool *)
+(* the fill value has the Python type of the first present value: a bool property stays bool.
+   DEFINITIONAL: this restates the five-line match of Dicts.default_for_value (proof: destruct v); it documents the repaired
+   function and does not count as covering a clause of the property -- the clause is covered by C03_column / C03_nx_roundtrip. *)
 Theorem C03_fill_kind : forall v,
   sk_of_py (default_for_value v) = sk_of_py v /\ (is_plist v = false -> scalar_payload (default_for_value v) = 0%Z).
 Proof. exact default_kind. Qed.
@@ -75,8 +81,10 @@ Print Assumptions C03_fill_kind.
 (* ---- the backends agree: construct from ONE in-memory geff ----
    For every well-formed geff (distinct node ids, edges between them, no edge twice, one value and one mask entry per element) whose
    canonical view cg is defined: NxBackend.construct gives cg; RxBackend.construct, seen through to_rx_id_map, gives cg; and on the
-   spatial-graph domain (sg_dom: >= 1 node and axis, supported numeric dtypes, no missing values, fixed-shape properties of rank <= 2,
-   axis properties 1-D of one dtype, no property called like position_attr) SgBackend.construct seen through the SgGraphAdapter gives cg. *)
+   spatial-graph domain (sg_dom: >= 1 node and axis, supported numeric dtypes, no missing values, fixed-shape properties of rank <= 2
+   -- rank 2 not of an 8-bit dtype --, axis properties 1-D of one dtype that is not 8-bit, no property called like position_attr)
+   SgBackend.construct seen through the SgGraphAdapter gives cg.  "No edge twice" is part of wf_geff: on a geff with a repeated edge
+   networkx and rustworkx do NOT agree (C03_repeated_edge_witnesses). *)
 Theorem C03_agree : forall g ids es cg,
   wf_geff g ids es -> props_fit (length ids) (g_nprops g) -> props_fit (length es) (g_eprops g) ->
   canon_geff g = Ok cg ->
@@ -97,7 +105,8 @@ Print Assumptions C03_sg_construct.
 
 (* ---- spatial-graph: geff.write(G, axis_names=names) ; geff.read(backend="spatial-graph") ----
    For every non-empty spatial graph (sgc_dom: distinct integer node ids, edges between them, no edge twice, ndims = number of axis
-   names, distinct non-empty axis names that are not attribute names, int8..uint64 / float32 / float64 scalar or vector attributes):
+   names, distinct usable (name_ok) axis names that are not attribute names, usable attribute names, int8..uint64 / float32 / float64
+   scalar attributes, int16..uint64 / float32 / float64 vector attributes -- hence a position that is not 8-bit):
    the write succeeds (the position attribute is stored as one property per axis), the store validates, and the graph constructed
    from it has the same nodes array, edges array, directedness and ndims, and the SAME SgGraphAdapter view (every attribute and every
    position component under its axis name, values and kinds) as the graph that was written. *)
@@ -110,7 +119,7 @@ Theorem C03_sg_roundtrip : forall s names ids es P mdtok axtok, sgc_dom s names 
     canon_sg s' names (akeys (g_nprops mg)) (akeys (g_eprops mg)) = Ok cg /\
     canon_sg s names (akeys (g_nprops mg)) (akeys (g_eprops mg)) = Ok cg /\
     sc_directed s' = sc_directed s /\ sc_ndims s' = sc_ndims s /\ sc_nodes s' = sc_nodes s /\ sc_edges s' = sc_edges s.
-Proof. exact sg_roundtrip. Qed.
+Proof. exact (sg_roundtrip KObj). Qed.
 Print Assumptions C03_sg_roundtrip.
 
 (* ---- the property text without the int64 guard is false (open finding int-beyond-int64-becomes-float) ----
@@ -161,13 +170,13 @@ Proof.
   - reflexivity.
   - reflexivity.
   - intros e He. cbn in He. destruct He as [<-|[<-|[]]]; cbn; auto.
-  - intros name Hin. vm_compute in Hin. destruct Hin as [<-|[]]. split; [discriminate|]. split; [discriminate|].
+  - intros name Hin. vm_compute in Hin. destruct Hin as [<-|[]]. split; [reflexivity|]. split; [reflexivity|]. split; [discriminate|].
     right. left. exists DI64, [2%nat]. split; [right; left; reflexivity|]. split; [discriminate|].
     replace (filled (column (map snd (d_nodes ex_lists)) "v"))
       with [PList [PInt 1; PInt 2]; PList [PInt 1; PInt 2]; PList [PInt (-3); PInt 4]] by (vm_compute; reflexivity).
     constructor; [lv_tac | constructor; [lv_tac | constructor; [lv_tac | constructor]]].
-  - intros name Hin. vm_compute in Hin. destruct Hin as [<-|[]]. split; [discriminate|]. split; [discriminate|].
-    right. right. exists DF64, 1%nat. split; [right; right; right; left; reflexivity|]. split; [vm_compute; reflexivity|].
+  - intros name Hin. vm_compute in Hin. destruct Hin as [<-|[]]. split; [reflexivity|]. split; [reflexivity|]. split; [discriminate|].
+    right. right. left. exists DF64, 1%nat. split; [right; right; right; left; reflexivity|]. split; [vm_compute; reflexivity|].
     replace (filled (column (map snd (d_edges ex_lists)) "r"))
       with [PList [PFloat 512]; PList [PFloat 1024; PFloat 2048]] by (vm_compute; reflexivity).
     constructor; [exists [1%nat]; split; [reflexivity | lv_tac] | constructor; [exists [2%nat]; split; [reflexivity | lv_tac] | constructor]].
@@ -188,22 +197,23 @@ Proof.
   - reflexivity.
   - reflexivity.
   - intros e He. cbn in He. destruct He as [<-|[<-|[]]]; cbn; auto.
-  - intros name Hin. vm_compute in Hin. destruct Hin as [<-|[<-|[]]]; (split; [discriminate | eexists; vm_compute; reflexivity]).
-  - intros name Hin. vm_compute in Hin. destruct Hin as [<-|[]]; (split; [discriminate | eexists; vm_compute; reflexivity]).
+  - intros name Hin. vm_compute in Hin. destruct Hin as [<-|[<-|[]]]; (split; [reflexivity | split; [reflexivity | eexists; vm_compute; reflexivity]]).
+  - intros name Hin. vm_compute in Hin. destruct Hin as [<-|[]]; (split; [reflexivity | split; [reflexivity | eexists; vm_compute; reflexivity]]).
 Qed.
 
-(* an in-memory geff in the spatial-graph domain (2 nodes, axes x y of float64, an int8 vector property, one edge with an int64
-   property): the three constructs give the same view *)
+(* an in-memory geff in the spatial-graph domain (2 nodes, axes x y of float64, an int16 vector property, one edge with an int64
+   property): the three constructs give the same view.  (An int8 / uint8 VECTOR is outside sg_dom: spatial_graph hands it back as a
+   bytes scalar -- open finding sg-8bit-vector-read-as-bytes; the earlier version of this example was such a graph.) *)
 Definition ex_geff : mgraph :=
   mkmg (mkmd true (Some [mkax "x" None None 0%Z; mkax "y" None None 0%Z]) [] [] 0%Z)
        (mkarr DU8 [2%nat] [7; 3]%Z) (mkarr DU8 [1%nat; 2%nat] [3; 7]%Z)
        [("x", mkprop (PFixed (mkarr DF64 [2%nat] [1024; 2048]%Z)) None);
-        ("v", mkprop (PFixed (mkarr DI8 [2%nat; 2%nat] [1; 2; 3; 4]%Z)) None);
+        ("v", mkprop (PFixed (mkarr DI16 [2%nat; 2%nat] [1; 2; 3; 4]%Z)) None);
         ("y", mkprop (PFixed (mkarr DF64 [2%nat] [512; -512]%Z)) None)]
        [("w", mkprop (PFixed (mkarr DI64 [1%nat] [9]%Z)) None)].
 
 Ltac sgp1 := split; [reflexivity | eexists; split; [reflexivity | split; [reflexivity | left; split; reflexivity]]].
-Ltac sgp2 k := split; [reflexivity | eexists; split; [reflexivity | split; [reflexivity | right; exists k; split; reflexivity]]].
+Ltac sgp2 k := split; [reflexivity | eexists; split; [reflexivity | split; [reflexivity | right; exists k; split; [reflexivity | split; reflexivity]]]].
 
 Example C03_agree_nonvacuous :
   exists cg, canon_geff ex_geff = Ok cg /\ sg_dom ex_geff "position" [7; 3]%Z [(3, 7)]%Z ["x"; "y"] DF64 /\
@@ -225,6 +235,7 @@ Proof.
     + constructor; [sgp1 | constructor].
     + cbn. intuition discriminate.
     + intros nm [<-|[<-|[]]]; eexists; (split; [reflexivity | split; reflexivity]).
+    + reflexivity.
   - repeat constructor.
   - repeat constructor.
 Qed.
@@ -247,12 +258,12 @@ Proof.
   constructor; try reflexivity; try discriminate.
   - intros e [<-|[]]; cbn; auto.
   - repeat constructor; cbn; intuition discriminate.
-  - intros nm [<-|[<-|[]]]; (split; [discriminate | cbn; intuition discriminate]).
+  - intros nm [<-|[<-|[]]]; (split; [reflexivity | cbn; intuition discriminate]).
   - repeat constructor; cbn; intuition discriminate.
-  - intros nm [<-|[<-|[]]]; discriminate.
+  - intros nm [<-|[<-|[]]]; reflexivity.
   - repeat constructor; cbn; intuition.
-  - intros nm [<-|[]]; discriminate.
-  - constructor; [split; [reflexivity | left; split; reflexivity] | constructor; [split; [reflexivity | right; exists 2%nat; split; reflexivity] | constructor]].
+  - intros nm [<-|[]]; reflexivity.
+  - constructor; [split; [reflexivity | left; split; reflexivity] | constructor; [split; [reflexivity | right; exists 2%nat; split; [reflexivity | split; reflexivity]] | constructor]].
   - constructor; [split; [reflexivity | left; split; reflexivity] | constructor].
 Qed.
 
@@ -363,7 +374,7 @@ Definition ex_mdg : dgraph :=
 Definition ex_mdc : smeta :=
   mkmd true (Some [mkax "x" (Some 0%Z) (Some 9216%Z) 5%Z]) [("x", mkpm DI8 true (Some 11%Z) None None)] [] 77%Z.
 
-Ltac col_tac := split; [discriminate | split; [discriminate | left; eexists; vm_compute; reflexivity]].
+Ltac col_tac := split; [reflexivity | split; [reflexivity | split; [discriminate | left; eexists; vm_compute; reflexivity]]].
 Ltac axis_tac := constructor; [discriminate | reflexivity | eexists; split; [vm_compute; reflexivity | first [left; reflexivity | right; reflexivity]]
                                | repeat constructor; cbn; lia].
 
@@ -479,3 +490,235 @@ Theorem C03_cu_metadata_refines : forall I gv m0 d m2 mdtok,
   MetaBridge.abs I m2 = cu_metadata (Some (MetaBridge.abs I m0)) d mdtok.
 Proof. exact BackendsMdBridge.cu_metadata_refines. Qed.
 Print Assumptions C03_cu_metadata_refines.
+
+(* =====================================================================================================================
+   AUDIT REPAIRS (fx03): the domain read declaratively, names / NUL / 8-bit vectors / repeated edges made explicit,
+   any store kind, exports for composition.  (DESIGN_NOTES/fx03.md)
+   ===================================================================================================================== *)
+From Geff Require Import Names C03Decl C03Multi C03Steps.
+
+(* ---- the value domain, declaratively (C03Decl.v) ----
+   decl_dom d g: node ids distinct and in [0, 2^64); edges between nodes, none twice ((u,v) = (v,u) when undirected); every
+   property name a usable name (Names.name_ok: one non-empty path segment without "/" or "\", not "." / "..", not one of zarr's
+   reserved member names .zarray / .zgroup / .zattrs / .zmetadata / zarr.json); and the PRESENT values of every property column are
+     (S) scalars of one class -- all bool | all ints in [-2^63, 2^63) | all ints in [2^63, 2^64) | all floats | all strs not ending
+         in NUL -- where in the class [2^63, 2^64) every element must carry the property (no_missing), or
+     (F) nested lists of one shape with >= 1 leaf, leaves of one class, or
+     (R) nested lists of one rank, >= 1 leaf each, at least two different shapes, leaves of one class, or
+     (E) nested lists of one shape without a leaf ([] everywhere).
+   Shapes (has_shape) and leaves (all_leaves) are inductive predicates on the values, not model functions.
+   Then the graph is in dom_values, hence the round trip holds. *)
+Theorem C03_decl_dom : forall d g, decl_dom d g -> dom_values d g.
+Proof. exact decl_dom_values. Qed.
+Print Assumptions C03_decl_dom.
+
+Theorem C03_decl_col : forall col, decl_col col -> strs_ok col = true /\ val_col col.
+Proof. exact decl_col_values. Qed.
+Print Assumptions C03_decl_col.
+
+Theorem C03_nx_roundtrip_decl : forall d g mdtok axtok, decl_dom d g ->
+  exists cg, nx_rt d g mdtok axtok = Ok cg /\ same_graph cv_of_py d g cg.
+Proof. intros d g mdtok axtok H. apply nx_rt_values. apply decl_dom_values. exact H. Qed.
+Print Assumptions C03_nx_roundtrip_decl.
+
+Theorem C03_rx_roundtrip_decl : forall d g idmap g' mdtok axtok, rx_target idmap g = Ok g' -> decl_dom d g' ->
+  exists cg, rx_rt d g idmap mdtok axtok = Ok cg /\ same_graph cv_of_py d g' cg.
+Proof. intros d g idmap g' mdtok axtok Ht H. apply (rx_rt_values d g idmap g' mdtok axtok Ht). apply decl_dom_values. exact H. Qed.
+Print Assumptions C03_rx_roundtrip_decl.
+
+(* ---- any store kind (store object or path), and everything C03_agree needs about the geff read back ----
+   The step-by-step statements for every k : skind, exporting wf_geff mg, props_fit and canon_geff mg = Ok cg, so that C03_agree /
+   C03_cross_views apply to the geff that was written (C03_written_all_views does it: one written geff, three adapter views).
+   zarr_format is not a parameter of the tree model: no theorem distinguishes the formats; the correspondence runs every case
+   family under both, and the reserved member names of both formats are excluded by name_ok. *)
+Theorem C03_nx_roundtrip_anystore : forall cvf k d g mdtok axtok, dom_dicts cvf d g ->
+  exists post mg cg,
+    run (api_write k (nx_write k d g None mdtok axtok)) None = (Some post, Ok tt) /\
+    validate_structure k (Some post) = Ok tt /\
+    read_to_memory k (Some post) true None None = Ok mg /\
+    wf_geff mg (map fst (d_nodes g)) (map fst (d_edges g)) /\
+    props_fit (length (map fst (d_nodes g))) (g_nprops mg) /\ props_fit (length (map fst (d_edges g))) (g_eprops mg) /\
+    canon_geff mg = Ok cg /\
+    nx_construct mg = Ok cg /\ same_graph cvf d g cg.
+Proof. exact nx_roundtrip_k. Qed.
+Print Assumptions C03_nx_roundtrip_anystore.
+
+Theorem C03_rx_roundtrip_anystore : forall cvf k d g idmap g' mdtok axtok, rx_target idmap g = Ok g' -> dom_dicts cvf d g' ->
+  exists post mg r cg,
+    run (api_write k (rx_write k d g idmap None mdtok axtok)) None = (Some post, Ok tt) /\
+    validate_structure k (Some post) = Ok tt /\
+    read_to_memory k (Some post) true None None = Ok mg /\
+    wf_geff mg (map fst (d_nodes g')) (map fst (d_edges g')) /\
+    props_fit (length (map fst (d_nodes g'))) (g_nprops mg) /\ props_fit (length (map fst (d_edges g'))) (g_eprops mg) /\
+    canon_geff mg = Ok cg /\
+    rx_construct mg = Ok r /\ canon_rx r = Some cg /\ same_graph cvf d g' cg.
+Proof. exact rx_roundtrip_k. Qed.
+Print Assumptions C03_rx_roundtrip_anystore.
+
+Theorem C03_sg_roundtrip_anystore : forall k s names ids es P mdtok axtok, sgc_dom s names ids es P ->
+  exists post mg s' cg,
+    run (api_write k (sg_write k s None (Some names) mdtok axtok)) None = (Some post, Ok tt) /\
+    validate_structure k (Some post) = Ok tt /\
+    read_to_memory k (Some post) true None None = Ok mg /\
+    sg_construct mg (sc_pos s) = Ok s' /\
+    canon_sg s' names (akeys (g_nprops mg)) (akeys (g_eprops mg)) = Ok cg /\
+    canon_sg s names (akeys (g_nprops mg)) (akeys (g_eprops mg)) = Ok cg /\
+    sc_directed s' = sc_directed s /\ sc_ndims s' = sc_ndims s /\ sc_nodes s' = sc_nodes s /\ sc_edges s' = sc_edges s.
+Proof. exact sg_roundtrip. Qed.
+Print Assumptions C03_sg_roundtrip_anystore.
+
+Theorem C03_written_all_views : forall k d g mdtok axtok, dom_values d g ->
+  exists post mg cg,
+    run (api_write k (nx_write k d g None mdtok axtok)) None = (Some post, Ok tt) /\
+    read_to_memory k (Some post) true None None = Ok mg /\
+    same_graph cv_of_py d g cg /\
+    nx_construct mg = Ok cg /\
+    (exists r, rx_construct mg = Ok r /\ canon_rx r = Some cg) /\
+    (forall pos names dt, sg_dom mg pos (map fst (d_nodes g)) (map fst (d_edges g)) names dt ->
+       exists s, sg_construct mg pos = Ok s /\ canon_sg s names (akeys (g_nprops mg)) (akeys (g_eprops mg)) = Ok cg).
+Proof. exact nx_written_all_views. Qed.
+Print Assumptions C03_written_all_views.
+
+(* ---- repeated edges (C03Multi.v) ----
+   "No edge twice" is a hypothesis of every agreement / networkx statement above (dv_edistinct, wg_edistinct): networkx Graph /
+   DiGraph objects are simple graphs.  rustworkx graphs are multigraphs by default, geff stores their edge list as it is, and the
+   rustworkx round trip needs no such hypothesis: every parallel edge comes back at its position with its own attributes. *)
+Theorem C03_rx_roundtrip_multi : forall d g idmap g' mdtok axtok, rx_target idmap g = Ok g' -> dom_values_m g' ->
+  exists cg, rx_rt d g idmap mdtok axtok = Ok cg /\ same_graph cv_of_py d g' cg.
+Proof. exact rx_roundtrip_multi. Qed.
+Print Assumptions C03_rx_roundtrip_multi.
+
+Theorem C03_rx_construct_multi : forall g ids es cg,
+  wf_mgeff g ids es -> props_fit (length ids) (g_nprops g) -> props_fit (length es) (g_eprops g) ->
+  canon_geff g = Ok cg ->
+  exists r, rx_construct g = Ok r /\ canon_rx r = Some cg.
+Proof. exact rx_construct_canon_m. Qed.
+Print Assumptions C03_rx_construct_multi.
+
+(* what happens on a repeated edge (computed): rustworkx 0 -> 1 twice with {w: 1, u: 7} and {w: 2} -- in the domain of
+   C03_rx_roundtrip_multi -- comes back from rustworkx as two edges, from networkx as ONE edge carrying w of the LAST occurrence and
+   u of the only occurrence that has it; a structurally valid undirected geff (1,2), (2,1) with w = 1, 2 (written with structure
+   validation on) reads as one edge w = 2 through networkx and as two edges through rustworkx: outside the distinct-edges
+   hypothesis the backends do not agree. *)
+Theorem C03_repeated_edge_witnesses :
+  dom_values_m ex_multi /\
+  rx_rt true ex_multi None 0 0
+  = Ok (mkcg true [(0%Z, []); (1%Z, [])] [((0%Z, 1%Z), [("w", CScalar SInt 1); ("u", CScalar SInt 7)]); ((0%Z, 1%Z), [("w", CScalar SInt 2)])]) /\
+  rx_to_nx true ex_multi None 0 0
+  = Ok (mkcg true [(0%Z, []); (1%Z, [])] [((0%Z, 1%Z), [("w", CScalar SInt 2); ("u", CScalar SInt 7)])]) /\
+  ex_multi_read nx_construct = Ok (mkcg false [(1%Z, []); (2%Z, [])] [((1%Z, 2%Z), [("w", CScalar SInt 2)])]) /\
+  ex_multi_read (fun mg => match rx_construct mg with Ok r => match canon_rx r with Some c => Ok c | None => Err OtherExn end | Err e => Err e end)
+  = Ok (mkcg false [(1%Z, []); (2%Z, [])] [((1%Z, 2%Z), [("w", CScalar SInt 1)]); ((2%Z, 1%Z), [("w", CScalar SInt 2)])]).
+Proof. split; [exact ex_multi_dom|]. split; [exact ex_multi_rx|]. split; [exact ex_multi_nx|]. exact ex_multi_mg_views. Qed.
+Print Assumptions C03_repeated_edge_witnesses.
+
+(* ---- non-vacuity of the declarative domain ----
+   a directed graph with: a bool on two of three nodes, a [2^63, 2^64) int on every node, a (2,) list of [2^63, 2^64) ints on two
+   nodes, an all-empty-list property; edges with a ragged list of [2^63, 2^64) ints and a str on one edge.  In decl_dom, and the
+   computed round trip gives it back. *)
+Definition ex_decl : dgraph :=
+  mkdg [(1%Z, [("b", PBool true); ("u", PInt (2 ^ 63)); ("l", PList [PInt (2 ^ 63); PInt (2 ^ 64 - 1)]); ("e", PList [])]);
+        (9223372036854775813%Z, [("u", PInt (2 ^ 64 - 1)); ("e", PList [])]);
+        (3%Z, [("b", PBool false); ("u", PInt (2 ^ 63 + 5)); ("l", PList [PInt (2 ^ 63 + 1); PInt (2 ^ 63 + 2)])])]
+       [((1%Z, 3%Z), [("r", PList [PInt (2 ^ 63); PInt (2 ^ 63 + 1)]); ("s", PStr 7)]);
+        ((3%Z, 1%Z), [("r", PList [PInt (2 ^ 64 - 1)])])].
+
+Ltac cls_tac := cbn [in_class]; unfold nul_base; lia.
+Ltac leaves_tac := repeat (constructor; [first [constructor; cls_tac | cls_tac]|]); try constructor.
+Ltac shape1_tac := match goal with |- has_shape (PList (?x :: ?r)) _ => apply (hs_cons x r []); [constructor | repeat constructor] end.
+
+Lemma ex_decl_dom : decl_dom true ex_decl.
+Proof. constructor.
+  - repeat constructor; cbn; lia.
+  - repeat constructor; cbn; intuition lia.
+  - reflexivity.
+  - intros e He. cbn in He. destruct He as [<-|[<-|[]]]; cbn; auto.
+  - intros name col Hin ->. vm_compute in Hin. destruct Hin as [<-|[<-|[<-|[<-|[]]]]]; (split; [reflexivity|]).
+    + apply (dc_scalar _ LBool); [discriminate | | discriminate].
+      replace (somes (column (map snd (d_nodes ex_decl)) "b")) with [PBool true; PBool false] by (vm_compute; reflexivity).
+      repeat (constructor; [exact I|]). constructor.
+    + apply (dc_scalar _ LUInt64); [discriminate | |].
+      * replace (somes (column (map snd (d_nodes ex_decl)) "u")) with [PInt (2 ^ 63); PInt (2 ^ 64 - 1); PInt (2 ^ 63 + 5)] by (vm_compute; reflexivity).
+        repeat (constructor; [cls_tac|]). constructor.
+      * intros _ o Ho. vm_compute in Ho. destruct Ho as [<-|[<-|[<-|[]]]]; discriminate.
+    + apply (dc_fixed _ LUInt64 [2%nat]); [vm_compute; discriminate | discriminate | discriminate |].
+      replace (somes (column (map snd (d_nodes ex_decl)) "l"))
+        with [PList [PInt (2 ^ 63); PInt (2 ^ 64 - 1)]; PList [PInt (2 ^ 63 + 1); PInt (2 ^ 63 + 2)]] by (vm_compute; reflexivity).
+      repeat (constructor; [split; [shape1_tac | constructor; leaves_tac]|]). constructor.
+    + apply (dc_empty _ [0%nat]); [vm_compute; discriminate | discriminate | reflexivity |].
+      replace (somes (column (map snd (d_nodes ex_decl)) "e")) with [PList []; PList []] by (vm_compute; reflexivity).
+      repeat (constructor; [exact hs_nil|]). constructor.
+  - intros name col Hin ->. vm_compute in Hin. destruct Hin as [<-|[<-|[]]]; (split; [reflexivity|]).
+    + apply (dc_ragged _ LUInt64 1%nat); [discriminate | |].
+      * replace (somes (column (map snd (d_edges ex_decl)) "r"))
+          with [PList [PInt (2 ^ 63); PInt (2 ^ 63 + 1)]; PList [PInt (2 ^ 64 - 1)]] by (vm_compute; reflexivity).
+        constructor; [exists [2%nat]; split; [reflexivity|]; split; [discriminate|]; split; [shape1_tac | constructor; leaves_tac]|].
+        constructor; [exists [1%nat]; split; [reflexivity|]; split; [discriminate|]; split; [shape1_tac | constructor; leaves_tac]|].
+        constructor.
+      * exists (PList [PInt (2 ^ 63); PInt (2 ^ 63 + 1)]), (PList [PInt (2 ^ 64 - 1)]), [2%nat], [1%nat].
+        split; [vm_compute; auto|]. split; [vm_compute; auto|].
+        split; [shape1_tac|]. split; [shape1_tac|]. discriminate.
+    + apply (dc_scalar _ LStr); [discriminate | | discriminate].
+      replace (somes (column (map snd (d_edges ex_decl)) "s")) with [PStr 7] by (vm_compute; reflexivity).
+      repeat (constructor; [cls_tac|]). constructor.
+Qed.
+
+Example C03_decl_nonvacuous :
+  decl_dom true ex_decl /\
+  nx_rt true ex_decl 0 0
+  = Ok (mkcg true
+          [(1%Z, [("b", CScalar SBool 1); ("u", CScalar SInt (2 ^ 63)); ("l", CArr SInt [2%nat] [2 ^ 63; 2 ^ 64 - 1]%Z); ("e", CArr SFloat [0%nat] [])]);
+           (9223372036854775813%Z, [("u", CScalar SInt (2 ^ 64 - 1)); ("e", CArr SFloat [0%nat] [])]);
+           (3%Z, [("b", CScalar SBool 0); ("u", CScalar SInt (2 ^ 63 + 5)); ("l", CArr SInt [2%nat] [2 ^ 63 + 1; 2 ^ 63 + 2]%Z)])]
+          [((1%Z, 3%Z), [("r", CArr SInt [2%nat] [2 ^ 63; 2 ^ 63 + 1]%Z); ("s", CScalar SStr 7)]);
+           ((3%Z, 1%Z), [("r", CArr SInt [1%nat] [2 ^ 64 - 1]%Z)])]).
+Proof. split; [exact ex_decl_dom | vm_compute; reflexivity]. Qed.
+
+(* the rustworkx example of C03_nonvacuous completed: the translated graph is in dom_values and the round trip is computed *)
+Example C03_rx_nonvacuous :
+  let g := mkdg [(0%Z, [("a", PInt 5)]); (2%Z, [])] [((0%Z, 2%Z), [])] in
+  let idmap := Some [(0%Z, 7%Z); (2%Z, 9223372036854775813%Z)] in
+  let g' := mkdg [(7%Z, [("a", PInt 5)]); (9223372036854775813%Z, [])] [((7%Z, 9223372036854775813%Z), [])] in
+  rx_target idmap g = Ok g' /\ dom_values true g' /\
+  rx_rt true g idmap 0 0 = Ok (mkcg true [(7%Z, [("a", CScalar SInt 5)]); (9223372036854775813%Z, [])] [((7%Z, 9223372036854775813%Z), [])]).
+Proof.
+  cbv zeta. split; [reflexivity|]. split; [|vm_compute; reflexivity].
+  constructor.
+  - repeat constructor; cbn; lia.
+  - reflexivity.
+  - reflexivity.
+  - intros e He. cbn in He. destruct He as [<-|[]]; cbn; auto.
+  - intros name Hin. vm_compute in Hin. destruct Hin as [<-|[]]. split; [reflexivity|]. split; [reflexivity|]. split; [discriminate|]. left. eexists. vm_compute. reflexivity.
+  - intros name [].
+Qed.
+
+(* ---- the EMPTY spatial graph (no theorem: one computed instance; the correspondence has the family) ----
+   An empty SpatialGraph with ndims = 2, an int64 node attribute and a float32 edge attribute, written with axis_names = [x, y]:
+   the write succeeds, the axes are stored with min = max = 0, the graph read back is empty, has the same directedness, keeps the
+   attribute "a" and the edge attribute "w" -- and has ndims = 1 with a float64 position of shape (0, 1): SgBackend.construct cannot
+   know the number of dimensions of a geff without nodes.  Without axis names (None) the write succeeds as well. *)
+Definition ex_sg0 : sgc :=
+  mksgc false 2 (mkarr DU64 [0%nat] []) "position" [("a", mkarr DI64 [0%nat] []); ("position", mkarr DF64 [0%nat; 2%nat] [])]
+        (mkarr DU64 [0%nat; 2%nat] []) [("w", mkarr DF32 [0%nat] [])].
+Definition sg_rt0 (axes : option (list string)) : res (smeta * sgc) :=
+  let (post, r) := run (api_write KObj (sg_write KObj ex_sg0 None axes 0 0)) None in
+  match r with
+  | Err e => Err e
+  | Ok _ => match read_to_memory KObj post true None None with
+            | Err e => Err e
+            | Ok mg => match sg_construct mg "position" with Err e => Err e | Ok s => Ok (g_md mg, s) end
+            end
+  end.
+Example C03_sg_empty_example :
+  match sg_rt0 (Some ["x"; "y"]) with
+  | Ok (md, s') =>
+      md_axes md = Some [mkax "x" (Some 0%Z) (Some 0%Z) 0%Z; mkax "y" (Some 0%Z) (Some 0%Z) 0%Z] /\
+      sc_directed s' = false /\ sc_nodes s' = sc_nodes ex_sg0 /\ sc_edges s' = sc_edges ex_sg0 /\
+      sc_ndims s' = 1%nat /\
+      sc_nattrs s' = [("a", mkarr DI64 [0%nat] []); ("position", mkarr DF64 [0%nat; 1%nat] [])] /\
+      sc_eattrs s' = sc_eattrs ex_sg0 /\
+      canon_sg s' ["x"; "y"] ["a"; "x"; "y"] ["w"] = Ok (mkcg false [] [])
+  | Err _ => False
+  end /\
+  match sg_rt0 None with Ok (md, s') => md_axes md = Some [] /\ sc_ndims s' = 1%nat /\ sc_nodes s' = sc_nodes ex_sg0 | Err _ => False end.
+Proof. vm_compute. repeat split. Qed.
